@@ -31,9 +31,8 @@ PATHS = ["dd", "sd", "ds", "ss", "comp", "compS", "compDS", "compSD", "ds.method
 
 def _sp(F):
     L = lib()
-    return L.utils.SparseQuaternionMatrix(
-        sparse.csr_matrix(F[..., 0]), sparse.csr_matrix(F[..., 1]),
-        sparse.csr_matrix(F[..., 2]), sparse.csr_matrix(F[..., 3]), F.shape[:2])
+    from ..qlib import sp_quat
+    return sp_quat(F)            # storage variants cycle (CSR / CSC / COO / duplicate slots / explicit zeros / unsorted / narrow dtype)
 
 
 def _sp_dense(S):
